@@ -383,6 +383,21 @@ def run(prop, tier, seed, t0):
                 add('end-state:failed-operation-left-an-output-file', '%s: %s' % (which, n_), 0)
         if rc == 0:
             add('end-state:cli-verdict-differs-from-library', 'list %s: exit 0 although one file is invalid' % which, 0)
+    # exit status over LONG lists: one invocation over k files that all fail (k around the multiples of 256: an exit status is reported modulo 256) must exit non-zero
+    for k in ((255, 256, 257, 512, 768) if thorough else (255, 256, 512)):
+        ld = os.path.join(ed, 'many%d' % k); os.makedirs(ld, exist_ok=True)
+        names = []
+        for i in range(k):
+            n_ = 'b%04d.zst' % i; open(os.path.join(ld, n_), 'wb').write(good[:max(8, len(good) // 3)]); names.append(n_)
+        for mode in ('-t', '-d'):
+            rc, so, se = env.run_cli(ld, [mode, '-q'] + names, timeout=600)
+            stats['endstate_checks'] += 1
+            if rc == 0:
+                add('end-state:cli-verdict-differs-from-library', 'list of %d truncated files with %s: exit status 0 although every file is invalid' % (k, mode), 0)
+            if mode == '-d' and any(os.path.exists(os.path.join(ld, n_[:-4])) for n_ in names):
+                add('end-state:failed-operation-left-an-output-file', 'list of %d truncated files' % k, 0)
+        shutil.rmtree(ld, ignore_errors=True)
+        stats['long_list_invocations'] = stats.get('long_list_invocations', 0) + 2
     # sparse == non-sparse == library, over zero-run layouts
     layouts = [[('z', 100000)], [('d', 65536), ('z', 65536), ('d', 65536)], [('d', 32768), ('z', 32768), ('d', 1)], [('z', 32768), ('d', 5)], [('d', 5), ('z', 32768 * 3)],
                [('d', 40000), ('z', 90000), ('d', 17)], [('d', 1), ('z', 131072), ('d', 131072), ('z', 1)], [('d', 98304), ('z', 32768), ('d', 32768), ('z', 65536), ('d', 3)]]
@@ -413,7 +428,7 @@ def run(prop, tier, seed, t0):
         'evaluations': stats['kill_runs'] + stats['int_runs'] + stats['endstate_checks'] + stats['iofault_runs'], 'iofault_runs': stats['iofault_runs'], 'iofault_fired_on_sources_or_destinations': stats['iofault_fired_on_operands'], 'iofault_cells': stats['iofault_cells'], 'distinct_nontrivial': stats['kill_runs'],
         'rule': 'invocation grammar (compress / decompress, --rm, -f, -o, several files, --output-dir-flat, -T2/-T0, --long, --sparse/--no-sparse, pre-existing destinations) x EVERY syscall index k = 1..N+11 of the process tree (exhaustive; N measured per invocation): SIGKILL just before syscall k, then a state oracle (hashes + library decoder + R) decides "source intact or destination complete" and "existing destination untouched without -f"; '
                 'SIGINT at each k for the simple invocations; injected I/O faults (strace: every k-th write ENOSPC/EIO, read EIO, close EIO, openat EACCES of the process tree; when the failed call was on a source/destination: non-zero exit, no partial destination, no data loss); end-state checks for damaged inputs, file lists, -t, sparse vs non-sparse layouts. distinct non-trivial = kill points executed (each is a distinct crash point)',
-        'exhaustive': True, 'invocations': stats['invocations'], 'kill_runs': stats['kill_runs'], 'sigint_runs': stats['int_runs'], 'sigint_on_worker_thread_runs': stats.get('intany_runs', 0), 'endstate_checks': stats['endstate_checks'], 'syscalls_per_invocation': stats['kill_points'],
+        'exhaustive': True, 'invocations': stats['invocations'], 'kill_runs': stats['kill_runs'], 'sigint_runs': stats['int_runs'], 'sigint_on_worker_thread_runs': stats.get('intany_runs', 0), 'endstate_checks': stats['endstate_checks'], 'long_failing_list_invocations(255..768 files)': stats.get('long_list_invocations', 0), 'syscalls_per_invocation': stats['kill_points'],
         'distinct_filesystem_states_seen': {k: sorted(v) for k, v in states.items()}, 'distinct_states_total': nstates, 'samples': samples,
     }
     assumptions = ['SIGKILL of the process tree does not lose page-cache data; OS-crash durability is outside the property', 'CLI built from the tree without gzip/lzma/lz4', 'the oracle is the library decoder + R, never the CLI', 'thread schedules vary between runs: the oracle is state based, N+11 covers the variation']
